@@ -429,7 +429,7 @@ class Gen:
         root = Node("svg", {"xmlns": SVGNS, "xmlns:xlink": XLINKNS, "viewBox": viewbox})
         if root_attrs:
             root.attrs.update(root_attrs)
-        if self.opt["clips"]:
+        if self.opt["clips"] and not self.clipids:
             self.make_clips()
         if self.opt["gradients"] and body_nodes is None and not self.gradids:
             for i in range(self.r.randint(1, 3)):
@@ -1111,3 +1111,62 @@ def strip_flagged(root, flags=("unsupported",)):
 
     rec(r)
     return r
+
+
+def use_clip_on_transformed_target_doc(rng):
+    """Dedicated sub-workload for the known-finding class: clip-path on a <use> whose target
+    carries its own transform."""
+    g = Gen(rng, clips=True, nested_svg=False, use=True)
+    r = rng
+    g.make_clips()
+    tgt = g.shape(closed_only=True)
+    tgt.attrs["fill"] = g.color()
+    tgt.attrs["transform"] = r.choice((f"translate({fnum(g.num(5, 25))} {fnum(g.num(-10, 10))})", g.transform()))
+    tgt.attrs = {"id": "tt", **tgt.attrs}
+    u = Node("use", {"xlink:href": "#tt", "clip-path": f"url(#{r.choice(g.clipids)})"})
+    if r.random() < 0.5:
+        u.attrs["x"] = fnum(g.num(-10, 10))
+        u.attrs["y"] = fnum(g.num(-10, 10))
+    if r.random() < 0.3:
+        u.attrs["transform"] = g.transform()
+    body = [u]
+    if r.random() < 0.5:
+        g.defs.append(tgt)
+    else:
+        body.insert(0, tgt)
+    if r.random() < 0.5:
+        body.append(g.painted_shape())
+    root = g.document(body_nodes=body)
+    # document() would call make_clips again when clips=True; defs were already filled
+    g.f["use_clip_on_transformed_target"] += 1
+    return to_xml(root), g.f, root
+
+
+def expand_clipped_uses_of_transformed_targets(root):
+    """Intervention: replace every <use clip-path=...> whose target has its own transform by the
+    group the SVG use semantics generate (transform = use.transform translate(x,y), clip-path
+    on the group, copy of the target inside).  Returns None if there is no such use."""
+    r = root.copy()
+    ids = {n.attrs["id"]: n for n in r.iter() if n.kind == "el" and "id" in n.attrs}
+    hit = False
+
+    def rec(n):
+        nonlocal hit
+        for i, c in enumerate(n.children):
+            if c.kind == "el" and c.tag == "use" and "clip-path" in c.attrs:
+                t = ids.get(c.attrs.get("xlink:href", "#")[1:])
+                if t is not None and "transform" in t.attrs:
+                    cp = t.copy()
+                    for x in cp.iter():
+                        x.attrs.pop("id", None)
+                    tf = (c.attrs.get("transform", "") + f" translate({c.attrs.get('x', '0')} {c.attrs.get('y', '0')})").strip()
+                    a = {k: v for k, v in c.attrs.items() if k not in ("x", "y", "width", "height", "transform", "xlink:href")}
+                    a["transform"] = tf
+                    n.children[i] = Node("g", a, [cp])
+                    hit = True
+                    continue
+            if c.kind == "el":
+                rec(c)
+
+    rec(r)
+    return r if hit else None
